@@ -780,6 +780,19 @@ class C17(ListBase):
             if src.startswith("\n"):
                 src = "x" + src
             yield self.mk(src, "<", ">", Cfg(), "short-unwrap")
+        # elements that touch: one to three inline siblings, ready or pending, each with at most one child, with nothing, a
+        # blank or a character between them (a pending element directly behind the closing tag of a ready one, ...)
+        import itertools
+        def el_txt(state, child):
+            t = gen.READY_T if state == "R" else gen.PEND_T
+            inner = "" if child is None else "<tl to='%s'>c</tl>" % (gen.READY_T if child == "R" else gen.PEND_T)
+            return "<tl to='%s'>%s</tl>" % (t, inner)
+        shapes = [(st, ch) for st in "RP" for ch in (None, "R", "P")]
+        for k in (1, 2, 3):
+            for combo in itertools.product(shapes, repeat=k):
+                for seps in itertools.product(["", " ", "x"], repeat=k - 1):
+                    src = "a " + "".join(el_txt(*combo[i]) + (seps[i] if i < k - 1 else "") for i in range(k)) + " b\n"
+                    yield self.mk(src, "<", ">", Cfg(), "touching")
         # outside the property's space (tags on the wrapper lines of unwrap-blocks): implementation against model only
         for i in range(quick(tier, 1500, 40000)):
             g = gen.DocGen(rng, depth=rng.choice([2, 3]), p_unwrap=0.6, p_ready=0.55, p_skip=0.05, p_wrapper_tags=0.6, p_inline=0.2,
@@ -1049,10 +1062,10 @@ class C19(Base):
                     ready = False
                     if "skip" not in words:
                         if name == cfg["rm"]:
-                            mm = re.search(r"""name=(['"])(.*?)\1""", at)
+                            mm = re.search(r"""name\s*=\s*(['"])(.*?)\1""", at)
                             ready = bool(mm) and mm.group(2) in cfg["targets"]
                         elif name == cfg["tl"]:
-                            mm = re.search(r"""to=(['"])(.*?)\1""", at)
+                            mm = re.search(r"""to\s*=\s*(['"])(.*?)\1""", at)
                             if mm and mm.group(2) in TIMES:
                                 ready = TIME_EPOCHS[TIMES.index(mm.group(2))] <= cfg["now"]
                     if ready:
